@@ -1244,9 +1244,9 @@ func replayLine(line string) (out string) {
 		return implPqp(ns, k, w32(3), cx, cy)
 	case f[0] == "bqw" && len(f) == 6:
 		return implBqw(f[1], w32(2), w32(3), w32(4))
-	case f[0] == "pqfit" && len(f) == 11:
+	case f[0] == "pqfit" && len(f) == 12:
 		return replayPqfit(f, w32)
-	case f[0] == "bqfit" && len(f) == 7:
+	case f[0] == "bqfit" && len(f) == 9:
 		return replayBqfit(f, w32)
 	case f[0] == "pqt" && len(f) == 6:
 		return "n/a (the tables a real Fit() left behind; k-means is not replayable from them: replay the pqfit line of the same case)"
